@@ -25,6 +25,10 @@ case "$ID" in C08|C10|C13|C14|C15|C18|C19) NEED_BIN=1 ;; esac
 if [ $NEED_RACE = 1 ]; then
   ( cd "$ROOT/harness" && go build -race -tags verif -o "$ROOT/bin/check-race" ./cmd/check ) >>"$LOG.build" 2>&1 || { cat "$LOG.build"; fail_build check-race; }
 fi
+if [ "$ID" = C07 ]; then
+  # the real executable under the race detector (package main is not linked into the check binary)
+  ( cd /repo && go build -race -tags verif -o "$ROOT/bin/bazel-remote-race" . ) >>"$LOG.build" 2>&1 || { cat "$LOG.build"; fail_build bazel-remote-race; }
+fi
 if [ $NEED_BIN = 1 ]; then
   ( cd /repo && go build -tags verif -o "$ROOT/bin/bazel-remote" . ) >>"$LOG.build" 2>&1 || { cat "$LOG.build"; fail_build bazel-remote; }
 fi
